@@ -296,7 +296,10 @@ static void construction_consistency() {
 // `insert(k)` / `find_or_insert(k)` without constructor arguments value-initialise the entry (counters, pointers and plain structs
 // start at zero), also in a slot whose previous value was erased after it had been written to.
 struct Counters { uint64_t hits, last; };
+struct Defaults { uint64_t id = 0; uint32_t refs = 1; uint32_t flags = 0; uint64_t owner = ~0ull; }; // plain data whose value-initialised state is not all-zero bytes
 template<typename T> static uint64_t first_word(const T &v) { uint64_t w = 0; memcpy(&w, &v, sizeof(T) < 8 ? sizeof(T) : 8); return w; }
+// a value-initialised T{} as the tree has to produce it (compared bytewise; the types used here have no padding)
+template<typename T> static bool is_value_initialised(const T &v) { T fresh{}; return memcmp(&v, &fresh, sizeof(T)) == 0; }
 template<typename T>
 static void plain_values_case(const char *tname, Rng &r) {
 	frg::rcu_radixtree<T, PlainAlloc> tree{PlainAlloc{}};
@@ -310,13 +313,13 @@ static void plain_values_case(const char *tname, Rng &r) {
 		int op = r.below(4);
 		if(op == 0 && !present) {
 			T *p = tree.insert(k);
-			if(first_word(*p) != 0) { if(g_model_armed) violation(std::string("C09:model:radixtree:value-initialised:") + tname, strf("insert(%016llx) without arguments returned an entry whose first word is %llx (erased earlier: the old value shows through)", (unsigned long long)k, (unsigned long long)first_word(*p))); return; }
-			model[k] = 0;
+			if(!is_value_initialised(*p)) { if(g_model_armed) violation(std::string("C09:model:radixtree:value-initialised:") + tname, strf("insert(%016llx) without arguments returned an entry that is not a value-initialised %s (first word %llx): an old value shows through, or the entry was never constructed", (unsigned long long)k, tname, (unsigned long long)first_word(*p))); return; }
+			model[k] = first_word(*p);
 		} else if(op == 1) {
 			auto res = tree.find_or_insert(k); T *p = res.template get<0>();
 			if(res.template get<1>() == present) { if(g_model_armed) violation("C09:model:radixtree:find_or_insert-flag", "find_or_insert(k) reports insertion for a present key or none for an absent one"); return; }
-			if(first_word(*p) != (present ? model[k] : 0)) { if(g_model_armed) violation(std::string("C09:model:radixtree:value-initialised:") + tname, strf("find_or_insert(%016llx) without arguments returned an entry whose first word is %llx, expected %llx", (unsigned long long)k, (unsigned long long)first_word(*p), (unsigned long long)(present ? model[k] : 0))); return; }
-			if(!present) model[k] = 0;
+			if(present ? first_word(*p) != model[k] : !is_value_initialised(*p)) { if(g_model_armed) violation(std::string("C09:model:radixtree:value-initialised:") + tname, strf("find_or_insert(%016llx) without arguments returned an entry whose first word is %llx, expected %llx", (unsigned long long)k, (unsigned long long)first_word(*p), (unsigned long long)(present ? model[k] : 0))); return; }
+			if(!present) model[k] = first_word(*p);
 		} else if(op == 2 && present) {
 			T *p = tree.find(k); if(!p) { if(g_model_armed) violation("C09:model:radixtree:find-present", "find() misses a present key of a plain-data tree"); return; }
 			uint64_t w = r.next() | 1; memset((void *)p, 0, sizeof(T)); memcpy((void *)p, &w, sizeof(T) < 8 ? sizeof(T) : 8); model[k] = first_word(*p); // the user writes to the entry
@@ -331,7 +334,7 @@ static void plain_values() {
 	for(uint64_t c = opt.shard; c < scaled(400, 8000); c += opt.nshards) {
 		begin_case("plain-values", c);
 		guarded(g_prop.c_str(), [&] {
-			switch(c % 4) { case 0: plain_values_case<uint64_t>("uint64_t", r); break; case 1: plain_values_case<Counters>("struct{u64,u64}", r); break; case 2: plain_values_case<void *>("void*", r); break; default: plain_values_case<uint16_t>("uint16_t", r); break; }
+			switch(c % 5) { case 4: plain_values_case<Defaults>("struct with default member initialisers", r); break; case 0: plain_values_case<uint64_t>("uint64_t", r); break; case 1: plain_values_case<Counters>("struct{u64,u64}", r); break; case 2: plain_values_case<void *>("void*", r); break; default: plain_values_case<uint16_t>("uint16_t", r); break; }
 		});
 		note_distinct(mix(hash_str("plain-values"), c)); count("plain_value_cases");
 	}
